@@ -6,7 +6,7 @@ L1 == <<"lit", "1">>
 L2 == <<"lit", "2">>
 D(p) == <<"lit", "d_" \o p>>       \* the default of parameter p
 
-Base == [ sel |-> <<"m","f">>, kind |-> "fn", pos |-> <<>>, npd |-> 0, kwo |-> <<>>, kwd |-> {},
+Base == [ deco |-> FALSE, sel |-> <<"m","f">>, kind |-> "fn", pos |-> <<>>, npd |-> 0, kwo |-> <<>>, kwd |-> {},
           va |-> FALSE, vk |-> FALSE, dflt |-> {}, allow |-> {"*"}, deny |-> {}, body |-> "record",
           api |-> "configurable" ]
 
@@ -67,7 +67,8 @@ ListShapes == {
   ListShape("a2", "cls", FALSE, {"*"}, {"q"}),
   ListShape("a3", "fn",  TRUE,  {"*"}, {"k"}),
   ListShape("a4", "cls", TRUE,  {"q"}, {}),
-  ListShape("a5", "fn",  TRUE,  {"p","z"}, {}) }
+  ListShape("a5", "fn",  TRUE,  {"p","z"}, {}),
+  [ListShape("a6", "fn", FALSE, {"*"}, {"q"}) EXCEPT !.deco = TRUE, !.api = "external"] }    \* decorated before it was registered
 ListRegs == { {c} : c \in ListShapes }
 ListRegs2 == { {a, b} : a \in ListShapes, b \in { x \in ListShapes : x.sel[2] \in {"a1", "a2"} } }
 AllApis == {"tuple", "string", "text", "block"}
